@@ -23,6 +23,7 @@ func init() {
 			"checked every k operations of PRNG programs over 4-6 names mixing Add/Remove (several spellings) with create, unlink, rename, hard link, mkdir, symlink/retarget, replace-by-rename, hold-open/release and re-Add " +
 			"(incl. re-Add while the old inode lives on through a hard link or open descriptor); at the end everything listed is removed (each Remove must succeed, none may panic) and the mark count must be back at the start value (sentinel only). " +
 			"In strict programs, right after every successful Add some kernel mark must be on the inode the path names now (identity, not only counts). " +
+			"Plus the replace race (4 Watchers in parallel, hundreds of iterations each: delete or rename away the watched file, create a new one under the name, Add it again while an Add spammer and WatchList pollers contend for the lock and the reader works through the old file's notifications; after a sentinel barrier the file must be listed, backed by exactly one kernel mark and report one Chmod). " +
 			"distinct_nontrivial = distinct programs with >=2 Adds that passed >=3 invariant checks with >=2 marks present",
 		Assumptions: []string{"fdinfo lists every mark of the instance", "the invariant is read only at quiescent points (after a barrier), under the library's own lock"},
 		Batches:     func(t string) int { return map[string]int{"quick": 10, "thorough": 40}[t] },
